@@ -13,8 +13,8 @@ STYLES = (',', ';', '\\')
 
 BOUNDS = {
     'quick': 'digit strings of length 1..3, int.frac with integer part 0..2 and fraction 1..2 digits, n% for n<1000, a^b '
-             'for a,b<=12, 20/40/400-digit families; quoted strings of length <=2 over a 15-character alphabet + all of '
-             'length 3 over 7 of them, both quote styles; 4 whitespace kinds at every token boundary of a 150-formula corpus; '
+             'for a,b<=12, 20/40/400-digit families; quoted strings of length <=2 over a 20-character alphabet (incl. full-width forms) + all of '
+             'length 3 over 9 of them, both quote styles; 4 whitespace kinds at every token boundary of a 150-formula corpus; '
              '3 separator styles; all blank patterns of 1..6 slots x 3 separators; flat arrays 1..4 and two-row arrays '
              'with rows of 1..3; all case variants of 3 cell labels',
     'thorough': 'digit strings of length 1..4, fractions to 3 digits, strings of length <=3 over the 15-character alphabet, '
@@ -150,9 +150,10 @@ class Numbers(Sub):
         return out[:6]
 
 
-ALPHA15 = ['a', 'Z', '7', ' ', '\t', '\n', 'Q', '\\', ',', '(', '#', 'é', '漢', '\U0001F600', '́']
+ALPHA15 = ['a', 'Z', '7', ' ', '\t', '\n', 'Q', '\\', ',', '(', '#', 'é', '漢', '\U0001F600', '́',
+           '\uff21', '\uff0c', '\u3000', '\uff02', '\u00a0']     # full-width A , ideographic space, full-width quote, NBSP
 # 'Q' stands for "the other quote character"; NUL is added for length-1 strings
-ALPHA7 = ['a', ' ', 'Q', '\\', '#', '漢', '\n']
+ALPHA7 = ['a', ' ', 'Q', '\\', '#', '漢', '\n', '\uff21', '\uff02']
 
 
 class Strings(Sub):
